@@ -266,6 +266,31 @@ func handleFile(raw json.RawMessage) interface{} {
 					ms = append(ms, mism{"Execute", 0, rep, "valid-altered", fmt.Sprintf("% x", data), fmt.Sprintf("display 甲, %q, 乙", want),
 						fmt.Sprintf("obs=%s display=%v msg=%s", o.Obs, o.Display, o.Msg)})
 				}
+				// the same program as files that START with a byte-order mark (main file and an imported module file): the mark is
+				// removed by the loader, the run is the same
+				modName := fmt.Sprintf("bommod%d", os.Getpid()) // the scratch directory is shared by the worker processes
+				modPath := filepath.Join(filepath.Dir(path), modName+".zn")
+				os.WriteFile(modPath, append([]byte{0xEF, 0xBB, 0xBF}, []byte("如何取甲？\n    输出“甲”\n")...), 0644)
+				bprog := append([]byte{0xEF, 0xBB, 0xBF}, []byte("导入《"+modName+"》\n（显示：（取甲））\n令X = “")...)
+				bprog = append(bprog, data...)
+				bprog = append(bprog, []byte("”\n（显示：X）\n（显示：“乙”）\n")...)
+				os.WriteFile(path, bprog, 0644)
+				ob := zn.RunFile(path, nil)
+				os.Remove(modPath)
+				runs++
+				good = ob.Obs == "value" && len(ob.Display) == 3
+				if good {
+					mid, _ := ob.Display[1].([]interface{})
+					if len(mid) != 1 {
+						good = false
+					} else if v, ok := mid[0].(zn.V); !ok || v["t"] != "str" || v["v"] != want {
+						good = false
+					}
+				}
+				if !good {
+					ms = append(ms, mism{"Execute", 0, rep, "bom-file-altered", fmt.Sprintf("ef bb bf … % x", data), fmt.Sprintf("display 甲, %q, 乙", want),
+						fmt.Sprintf("obs=%s display=%v msg=%s", ob.Obs, ob.Display, ob.Msg)})
+				}
 			}
 		}
 	}
